@@ -79,6 +79,24 @@ macro_rules! products_case {
             check!(cx, <cm::$Mat<S> as Zero>::is_zero(&cm::$Mat::from_arr(&z)), "col is_zero(zero)");
             check_eq!(cx, <rm::$Mat<S> as Zero>::is_zero(&ra), a == z, "row is_zero(A)");
             check_eq!(cx, <cm::$Mat<S> as Zero>::is_zero(&ca), a == z, "col is_zero(A)");
+            // in-place trait methods on an arbitrary receiver: One::set_one / is_one, Zero::set_zero
+            {
+                let (mut r1, mut c1) = (ra, ca);
+                One::set_one(&mut r1);
+                One::set_one(&mut c1);
+                check_eq!(cx, r1.to_arr(), id, "row One::set_one on A");
+                check_eq!(cx, c1.to_arr(), id, "col One::set_one on A");
+                check!(cx, One::is_one(&r1) && One::is_one(&c1), "is_one after set_one");
+                check_eq!(cx, One::is_one(&ra), a == id, "row is_one(A)");
+                check_eq!(cx, One::is_one(&ca), a == id, "col is_one(A)");
+                check_mat!(cx, S, (r1 * rb).to_arr(), b, sc, 8, "row set_one(A) * B = B");
+                check_mat!(cx, S, (cb * c1).to_arr(), b, sc, 8, "col B * set_one(A) = B");
+                let (mut r0, mut c0) = (ra, ca);
+                Zero::set_zero(&mut r0);
+                Zero::set_zero(&mut c0);
+                check_eq!(cx, r0.to_arr(), z, "row Zero::set_zero on A");
+                check_eq!(cx, c0.to_arr(), z, "col Zero::set_zero on A");
+            }
             // one element non-zero => not zero
             {
                 let (i, j) = (t.below(N), t.below(N));
@@ -264,6 +282,15 @@ macro_rules! specials_case {
             elem!("A-s", ra - s, ca - s, |x, _y| x - s);
             elem!("A*=s", { let mut m = ra; m *= s; m }, { let mut m = ca; m *= s; m }, |x, _y| x * s);
             elem!("A/=s", { let mut m = ra; m /= s; m }, { let mut m = ca; m /= s; m }, |x, _y| x / s);
+            elem!("A%s", ra % s, ca % s, |x, _y| x % s);
+            elem!("A%=s", { let mut m = ra; m %= s; m }, { let mut m = ca; m %= s; m }, |x, _y| x % s);
+            elem!("A+=s", { let mut m = ra; m += s; m }, { let mut m = ca; m += s; m }, |x, _y| x + s);
+            elem!("A-=s", { let mut m = ra; m -= s; m }, { let mut m = ca; m -= s; m }, |x, _y| x - s);
+            elem!("A%B", ra % rb, ca % cb, |x, y| x % y);
+            elem!("A+=B", { let mut m = ra; m += rb; m }, { let mut m = ca; m += cb; m }, |x, y| x + y);
+            elem!("A-=B", { let mut m = ra; m -= rb; m }, { let mut m = ca; m -= cb; m }, |x, y| x - y);
+            elem!("A/=B", { let mut m = ra; m /= rb; m }, { let mut m = ca; m /= cb; m }, |x, y| x / y);
+            elem!("A%=B", { let mut m = ra; m %= rb; m }, { let mut m = ca; m %= cb; m }, |x, y| x % y);
             elem!("A+B", ra + rb, ca + cb, |x, y| x + y);
             elem!("A-B", ra - rb, ca - cb, |x, y| x - y);
             elem!("A/B", ra / rb, ca / cb, |x, y| x / y);
